@@ -390,10 +390,13 @@ func checkTPStruct(s TPSpec, u *vf.Unit) *vf.Verdict {
 	if want.MaxUDPPayloadSize == 0 {
 		want.MaxUDPPayloadSize = protocol.MaxByteCount // absent = no limit (transport_parameters.go unmarshal)
 	}
-	if want.MaxIdleTimeout < protocol.MinRemoteIdleTimeout {
-		if want.MaxIdleTimeout == 0 && strict() {
+	if want.MaxIdleTimeout == 0 {
+		// 0 = disabled (RFC 9000 18.2): written as an explicit 0 and must parse back as 0
+		if q.MaxIdleTimeout != 0 && strict() && !u.KnownHit("C08/tparams/idle-zero-floored") {
 			return bad("tparams", "idle-zero-floored", "MaxIdleTimeout 0 (disabled) is written as an explicit 0 and parses back as %v", q.MaxIdleTimeout)
 		}
+		want.MaxIdleTimeout = q.MaxIdleTimeout
+	} else if want.MaxIdleTimeout < protocol.MinRemoteIdleTimeout {
 		want.MaxIdleTimeout = protocol.MinRemoteIdleTimeout // documented floor for the peer's idle timeout (params.go MinRemoteIdleTimeout)
 		u.Class("norm:idle-floor")
 	}
@@ -614,9 +617,15 @@ func checkTPBytesInner(c TPCase, u *vf.Unit) *vf.Verdict {
 	idleOK := idle <= uint64((1<<63-1)/int64(time.Millisecond))
 	wantIdle := uint64(0) // absent: no idle timeout requested
 	if _, ok := have[refwire.TPMaxIdleTimeout]; ok {
-		// present: floored at MinRemoteIdleTimeout (params.go). NOTE: this also turns an explicit 0
-		// ("disabled", RFC 9000 18.2) into 5 s - upstream behaviour, recorded in NOTES.md, not a codec matter.
+		// present: floored at MinRemoteIdleTimeout (params.go); an explicit 0 means "disabled" (RFC 9000 18.2)
+		// and stays 0 (it used to become 5 s: finding C08/tparams/idle-zero-floored, repaired in /repo)
 		wantIdle = max(idle, uint64(protocol.MinRemoteIdleTimeout/time.Millisecond))
+		if idle == 0 {
+			wantIdle = 0
+			if p.MaxIdleTimeout != 0 && u.KnownHit("C08/tparams/idle-zero-floored") {
+				wantIdle = uint64(p.MaxIdleTimeout / time.Millisecond)
+			}
+		}
 	}
 	if !idleOK {
 		u.Class("norm:idle-overflow")
@@ -710,13 +719,11 @@ func checkTPBytesInner(c TPCase, u *vf.Unit) *vf.Verdict {
 	if err != nil {
 		return bad("tparams", "reparse-failed", "own encoding of a parsed value is rejected: %v\n parsed from %x\n re-encoded %x", err, clip(data, 100), clip(b, 100))
 	}
-	if c.Mode != 2 && p.MaxIdleTimeout == 0 {
-		// Absent max_idle_timeout parses to 0 ("none"), Marshal writes an explicit 0, and Unmarshal
-		// floors an explicit 0 at MinRemoteIdleTimeout (5 s) although RFC 9000 18.2 gives 0 the
-		// meaning "disabled". A literal breach of "re-encoding what parsed parses to the same result",
-		// unreachable in production (peer parameters are never re-encoded; Config.MaxIdleTimeout is
-		// never 0 after populateConfig). Tolerated by default, raised with VERIF_C08_STRICT=1. See NOTES.md.
-		if strict() {
+	if c.Mode != 2 && p.MaxIdleTimeout == 0 && q.MaxIdleTimeout != 0 {
+		// Absent max_idle_timeout parses to 0 ("none") and Marshal writes an explicit 0. Unmarshal used to floor an
+		// explicit 0 at MinRemoteIdleTimeout (5 s) although RFC 9000 18.2 gives 0 the meaning "disabled": a breach
+		// of "re-encoding what parsed parses to the same result" (repaired in /repo, see known_findings.json).
+		if strict() && !u.KnownHit("C08/tparams/idle-zero-floored") {
 			return bad("tparams", "idle-zero-floored", "absent max_idle_timeout parsed as 0, re-encoded as explicit 0, re-parsed as %v\n b=%x", q.MaxIdleTimeout, clip(data, 100))
 		}
 		u.Class("norm:idle-zero-floored")
